@@ -99,6 +99,7 @@ type Frame struct {
 	fn      *ast.FuncType
 	isLit   bool
 	retK    func(st *State, vals []Value) // continuation for literal calls
+	panicAtEntry bool // the frame was entered while a panic was already unwinding (inline cleanup literals)
 }
 
 // State is a symbolic state on one path.
